@@ -937,6 +937,10 @@ pub fn cins_line(ctx: &mut Ctx, k: u64, v: &[u8]) -> String {
             } else {
                 st.live_from += *n;
             }
+            // C06 read-your-write: the inserted key returns the inserted bytes immediately
+            if pc(|| st.cache.get(&k).map(|s| s.to_vec())) != Ok(Some(v.to_vec())) {
+                fails.push(format!("C06:read-your-write-key{}", k));
+            }
             if *n > 0 {
                 st.ever_evicted = true;
                 // C12 pressure
